@@ -2,15 +2,18 @@ package checks
 
 import (
 	"bytes"
+	stdelliptic "crypto/elliptic"
 	"crypto/hmac"
 	"crypto/sha256"
 	"crypto/sha512"
 	"encoding/binary"
 	"errors"
 	"fmt"
+	"math/big"
 	"sync/atomic"
 
 	"github.com/wollac/iota-crypto-demo/pkg/slip10"
+	"github.com/wollac/iota-crypto-demo/pkg/slip10/btccurve"
 	"github.com/wollac/iota-crypto-demo/pkg/slip10/eddsa"
 	slipelliptic "github.com/wollac/iota-crypto-demo/pkg/slip10/elliptic"
 
@@ -19,7 +22,7 @@ import (
 )
 
 func init() {
-	core.Register(core.Check{ID: "C02", Level: "exploration", Run: func(c *core.Ctx) { runC02(c); historyPass(c, "C02"); reentrancyPass(c, "C02") }})
+	core.Register(core.Check{ID: "C02", Level: "exploration", Run: func(c *core.Ctx) { runC02(c); historyPass(c, "C02"); reentrancyPass(c, "C02"); arch386Pass(c, "C02") }})
 }
 
 // ---------- (c) toy curve: validity decided by a byte predicate, 3 of 4 candidates rejected ----------
@@ -330,6 +333,65 @@ func runC02(c *core.Ctx) {
 		walk(m, rm, nil, 0)
 	})
 	c.Sample(map[string]interface{}{"curve": "ed25519", "seed": "01", "path": []uint32{1 << 31, 0}, "expect": "error (non-hardened ed25519)"})
+
+	// ---- (a') extended keys the caller restored from stored material ----
+	// A wallet keeps k || c and rebuilds the ExtendedKey from the exported fields: key and chain code are windows of one
+	// buffer (len 32, capacity reaching into whatever follows). Children must be what SLIP-0010 says and the stored
+	// material must not be written.
+	for _, cv := range curves {
+		for _, sd := range seeds[:4] {
+			rm := rs.Master(cv.ref, sd)
+			for layout := 0; layout < 3; layout++ {
+				var blob, kwin, cwin []byte
+				switch layout {
+				case 0: // k || c || spare
+					blob = append(append(append([]byte{}, rm.Priv...), rm.Chain...), bytes.Repeat([]byte{0xEE}, 16)...)
+					kwin, cwin = blob[0:32], blob[32:64]
+				case 1: // c || k || spare
+					blob = append(append(append([]byte{}, rm.Chain...), rm.Priv...), bytes.Repeat([]byte{0xEE}, 16)...)
+					cwin, kwin = blob[0:32], blob[32:64]
+				default: // exact-capacity copies
+					blob = append(append([]byte{}, rm.Priv...), rm.Chain...)
+					kwin, cwin = append([]byte{}, blob[0:32]...), append([]byte{}, blob[32:64]...)
+				}
+				stored := append([]byte{}, blob...)
+				var key slip10.Key
+				switch cv.name {
+				case "ed25519":
+					key = eddsa.Seed(kwin)
+				case "secp256k1":
+					key = &slipelliptic.PrivateKey{K: new(big.Int).SetBytes(kwin), Curve: btccurve.Secp256k1()}
+				default:
+					key = &slipelliptic.PrivateKey{K: new(big.Int).SetBytes(kwin), Curve: stdelliptic.P256()}
+				}
+				ek := &slip10.ExtendedKey{ChainCode: cwin, Key: key}
+				for _, idx := range alpha {
+					cas := map[string]interface{}{"curve": cv.name, "seed": fmt.Sprintf("%x", sd), "index": idx, "layout": []string{"k||c||spare", "c||k||spare", "separate copies"}[layout]}
+					var ch *slip10.ExtendedKey
+					var err error
+					p := core.Catch(func() { ch, err = ek.DeriveChild(idx) })
+					c.Eval(1)
+					nontriv.Add(1)
+					rch, rerr := rm.Child(cv.ref, idx)
+					if p != nil {
+						c.Violate("C02/"+cv.name+"/restored-key/panic", fmt.Sprint(p), cas, "", nil)
+						continue
+					}
+					if !bytes.Equal(blob, stored) {
+						c.Violate("C02/"+cv.name+"/restored-key/stored-material-written", fmt.Sprintf("DeriveChild(%d) on a key restored from one k||c buffer changed that buffer from %x to %x", idx, stored, blob), cas, "", nil)
+						copy(blob, stored)
+					}
+					if (err != nil) != (rerr != nil) {
+						c.Violate("C02/"+cv.name+"/restored-key/defined", fmt.Sprintf("DeriveChild(%d): err=%v, SLIP-0010: %v", idx, err, rerr), cas, "", nil)
+						continue
+					}
+					if err == nil && (!bytes.Equal(ch.Key.Bytes(), rch.Priv) || !bytes.Equal(ch.ChainCode, rch.Chain) || !bytes.Equal(ch.Key.Public().Bytes(), rch.Pub)) {
+						c.Violate("C02/"+cv.name+"/restored-key/child", fmt.Sprintf("DeriveChild(%d) = key %x chain %x, SLIP-0010: key %x chain %x", idx, ch.Key.Bytes(), ch.ChainCode, rch.Priv, rch.Chain), cas, "", nil)
+					}
+				}
+			}
+		}
+	}
 
 	// ---- (b) scripted answers ----
 	seqs := c02seqs()
